@@ -41,6 +41,9 @@ def shards(tier, seed):
         out.append(("jac_small_%d" % i, dict(kind="jac_small", nmax=jmax, part=i, parts=4)))
     out.append(("jac_big", dict(kind="jac_big", count=2000 if q else 30000)))
     out.append(("jac_worstcase", dict(kind="jac_worst", maxbits=1000)))
+    for i in range(2 if q else 6):
+        out.append(("concurrent_%d" % i, dict(kind="concurrent", runs=40 if q else 400)))
+    out.append(("optimised_interpreter", dict(kind="pyopt", pmax=400 if q else 2000)))
     return out
 
 
@@ -180,6 +183,83 @@ def run(ctx, name, kind, **kw):
             f = nt.factor(n)
             for a in range(-n, 2 * n + 1):
                 check_jac(ctx, a, n, f, "jacobi.small")
+    elif kind == "concurrent":
+        # module-level scratch state must not be shared between calls: 2 real threads (token scheduler, a switch possible at every line
+        # of numbertheory.py) compute roots / symbols / inverses at once; every result is judged as in the sequential shards
+        from vf import sched as S
+        hooks = S.LineHooks()
+        hooks.install(S.codes_of(NT), None)
+        try:
+            p224 = lib.dom_of(lib.BY_NAME["NIST224p"]).p
+            primes = [p224, 1009, 7681, nt.random_prime(40, rng, lambda v: v % 8 == 1), nt.random_prime(33, rng, lambda v: v % 8 == 5), 1019]
+            for run_i in range(kw["runs"]):
+                p1 = primes[run_i % 2 and rng.randrange(len(primes))]
+                p2 = p1 if rng.random() < 0.7 else rng.choice(primes)
+                jobs = []
+                for p_ in (p1, p2):
+                    t_ = rng.randrange(2, p_)
+                    jobs.append(rng.choice((("sqrt", t_ * t_ % p_, p_), ("sqrt", t_ * t_ % p_, p_), ("jacobi", t_, p_), ("inv", t_, p_))))
+                res = {}
+                s = S.Sched(S.random_decider(rng, rng.choice((0.02, 0.1, 0.3))), max_steps=2000000)
+
+                def body(i, job):
+                    def f():
+                        fn, a, m = job
+                        res[i] = {"sqrt": NT.square_root_mod_prime, "jacobi": NT.jacobi, "inv": NT.inverse_mod}[fn](a, m)
+                    return f
+                for i, job in enumerate(jobs):
+                    s.spawn(body(i, job), "T%d" % i)
+                hooks.sched = s
+                ok = s.run(timeout=60.0)
+                hooks.sched = None
+                ctx.case("concurrent_calls", key="%s|%s|%d" % (jobs[0][0], jobs[1][0], min(s.switches, 10)), nontrivial=s.switches > 2)
+                for i, (fn, a, m) in enumerate(jobs):
+                    t = s.ts[i]
+                    if t.exc is not None:
+                        ctx.violation("raises_under_interleaving:" + fn, "%s(%d, %d-bit modulus) raised %s: %s while another thread was inside numbertheory" % (fn, a, m.bit_length(), type(t.exc).__name__, t.exc),
+                                      dict(jobs=jobs, decisions=s.decisions[:300]))
+                        continue
+                    if not ok:
+                        continue
+                    v = res.get(i)
+                    good = (fn == "sqrt" and v is not None and 0 <= v < m and v * v % m == a) or (fn == "jacobi" and v == nt.legendre(a, m)) or (fn == "inv" and v is not None and v * a % m == 1)
+                    ctx.check(good, "wrong_under_interleaving:" + fn, "%s(%d, %d) = %r under interleaving" % (fn, a, m, v), dict(jobs=jobs, decisions=s.decisions[:300]))
+        finally:
+            hooks.uninstall()
+    elif kind == "pyopt":
+        # the same contracts with the interpreter's assert statements stripped (python -O): results must not depend on an assert's side effects
+        import json
+        import os
+        import subprocess
+        import sys
+        code = ("import json,sys\nfrom ecdsa import numbertheory as NT\nout=[]\n"
+                "def sieve(n):\n    s=bytearray([1])*n; s[0:2]=b'\\0\\0'\n    for i in range(2,int(n**0.5)+1):\n        if s[i]: s[i*i::i]=bytearray(len(range(i*i,n,i)))\n    return [i for i in range(n) if s[i]]\n"
+                "ps=[p for p in sieve(%d) if p>2]+[%d]\n"
+                "for p in ps:\n    for a in (range(p) if p<3000 else [4,9,2,3,5,(p-1)//2, 1234567]):\n"
+                "        try: r=NT.square_root_mod_prime(a,p)\n        except NT.SquareRootError: r=None\n        except Exception as e: r='raised '+type(e).__name__\n"
+                "        out.append((a,p,r))\n"
+                "inv=[(a,m,NT.inverse_mod(a,m)) for m in (97,2**61-1,%d) for a in (2,3,m-1,12345)]\n"
+                "jac=[(a,n,NT.jacobi(a,n)) for n in (15,21,1001,%d) for a in (2,-1,7,n+2)]\n"
+                "json.dump(dict(sq=out,inv=inv,jac=jac,assertions_stripped=not __debug__),sys.stdout)\n") % (kw["pmax"], lib.dom_of(lib.BY_NAME["NIST224p"]).p, lib.dom_of(lib.BY_NAME["NIST256p"]).n, lib.dom_of(lib.BY_NAME["NIST256p"]).p)
+        r = subprocess.run([sys.executable, "-O", "-c", code], capture_output=True, timeout=600, env=dict(os.environ))
+        if r.returncode != 0:
+            ctx.note("python -O child failed: " + r.stderr.decode()[-300:])
+            ctx.count("pyopt_inconclusive")
+            return
+        data = json.loads(r.stdout.decode())
+        assert data["assertions_stripped"]
+        for a, p, rr in data["sq"]:
+            leg = 0 if a % p == 0 else nt.legendre(a, p)
+            cls = "pyopt.sqrt.%s" % pclass(p)
+            ctx.case(cls, key="%s|%s" % (p if p < 10000 else p.bit_length(), leg))
+            ok = (rr is None and leg == -1) or (isinstance(rr, int) and leg != -1 and 0 <= rr < p and rr * rr % p == a % p)
+            ctx.check(ok, "sqrt_wrong_under_python_O", "python -O: square_root_mod_prime(%d, %d) = %r (Legendre symbol %d)" % (a, p, rr, leg), dict(a=a, p=p, got=rr))
+        for a, m, i in data["inv"]:
+            ctx.case("pyopt.inv", key=str(m.bit_length()))
+            ctx.check(a * i % m == 1 and 0 <= i < m, "inverse_wrong_under_python_O", "python -O: inverse_mod(%d,%d)=%r" % (a, m, i), dict(a=a, m=m))
+        for a, n, j in data["jac"]:
+            ctx.case("pyopt.jacobi", key=str(n.bit_length()))
+            ctx.check(j == nt.jacobi_iter(a, n), "jacobi_wrong_under_python_O", "python -O: jacobi(%d,%d)=%r" % (a, n, j), dict(a=a, n=n))
     elif kind == "jac_worst":
         # consecutive terms of x[k+1] = 2 x[k] + x[k-1] (all odd): the slowest inputs for the Euclid-like recursion, one level per
         # ~1.27 bits; oracle = iterative reference (factorisation unknown).  Also a + k*n (oversized a) and negative a.
